@@ -485,3 +485,85 @@ Definition name_of (d : descr) : option tname :=
 
 (* an ASCII digit 0-9 (used to state the spelling theorems) *)
 Definition ascii_digit (c : N) : Prop := 48 <= c <= 57.
+
+(* ====================================================================================
+   Round 2: DataFrame.description over a WHOLE schema (orso/dataframe.py 342-394 is a loop
+   over self.column_names; each iteration looks its column up BY NAME with
+   RelationSchema.find_column (orso/schema.py 581-600: the first column whose names contain
+   it) and renders it).  The single-column [column_model] above says nothing about what one
+   column's entry may depend on; the definitions below make the frame the unit.
+   ==================================================================================== *)
+Definition schema := list (str * descr).          (* (column name, what the column carries), schema order *)
+
+(* RelationSchema.find_column(name): the first column with that name (no aliases are declared) *)
+Fixpoint find_column (n : str) (sch : schema) : option descr :=
+  match sch with
+  | [] => None
+  | (m, c) :: r => if str_eqb n m then Some c else find_column n r
+  end.
+
+(* one description tuple: (name, type_code, precision, scale)   [display/internal size are None] *)
+Definition desc_entry := (str * str * option N * option N)%type.
+Definition entry_of (n : str) (c : descr) : desc_entry := (n, type_code c, desc_prec c, desc_scale c).
+Definition e_name (e : desc_entry) : str := let '(n, _, _, _) := e in n.
+Definition e_code (e : desc_entry) : str := let '(_, k, _, _) := e in k.
+
+(* the loop body: look the column up by name, render it.  (A name that find_column does not
+   find cannot occur - the names come from the schema itself, Proofs/C06_Frame.v
+   [description_first_match] - the implementation would raise AttributeError there.) *)
+Definition describe_column (sch : schema) (n : str) : desc_entry :=
+  match find_column n sch with
+  | Some c => entry_of n c
+  | None => (n, [], None, None)
+  end.
+Definition description (sch : schema) : list desc_entry := map (describe_column sch) (map fst sch).
+
+(* a declared column as the correspondence supplies it: column name, the type-name string s,
+   CPython's str.upper(s) and the classes of its non-ASCII characters (used only when s is
+   not ASCII, exactly as in [c06_check]) *)
+Definition col_in := (str * str * str * ext_table)%type.
+Definition ci_name (ci : col_in) : str := let '(n, _, _, _) := ci in n.
+Definition ci_text (ci : col_in) : str := let '(_, s, _, _) := ci in s.
+Definition ci_X (ci : col_in) : cext := let '(_, s, _, ext) := ci in if is_ascii s then X0 else ext_of ext.
+Definition ci_upper (ci : col_in) : str := let '(_, s, u, _) := ci in if is_ascii s then upper s else u.
+Definition ci_resolve (ci : col_in) : result descr :=
+  from_name_gen (ci_X ci) (fun _ => ci_upper ci) (ci_text ci).
+(* FlatColumn(name=n, type=s): raises what from_name raises, else carries [column_of] *)
+Definition declared (ci : col_in) : result descr :=
+  match ci_resolve ci with Ok d => Ok (column_of d) | Raise e => Raise e end.
+(* the schema built from the columns whose constructor did not raise, in order *)
+Definition schema_of (cols : list col_in) : schema :=
+  flat_map (fun ci => match declared ci with Ok c => [(ci_name ci, c)] | Raise _ => [] end) cols.
+
+(* what is observed of a frame: every description entry and from_name(its type code) *)
+Definition desc_obs := (desc_entry * result descr)%type.
+Definition frame_desc (cols : list col_in) : list desc_obs :=
+  map (fun e => (e, from_name (e_code e))) (description (schema_of cols)).
+
+Definition entry_eqb (a b : desc_entry) : bool :=
+  let '(n1, k1, p1, s1) := a in
+  let '(n2, k2, p2, s2) := b in
+  str_eqb n1 n2 && str_eqb k1 k2 && optN_eqb p1 p2 && optN_eqb s1 s2.
+Definition dobs_eqb (a b : desc_obs) : bool := entry_eqb (fst a) (fst b) && result_eqb (snd a) (snd b).
+Fixpoint list_eqb {A : Type} (eqb : A -> A -> bool) (l1 l2 : list A) : bool :=
+  match l1, l2 with
+  | [], [] => true
+  | a :: r1, b :: r2 => eqb a b && list_eqb eqb r1 r2
+  | _, _ => false
+  end.
+
+(* a frame case: the declared columns, each with what the constructor did (Raise, or the
+   attributes read AFTER the frame was built and described), and the list returned by each of
+   the successive calls of .description on that one frame (None: the call raised / returned
+   something that is not a list of tuples of the expected shape) *)
+Definition frame_case := (list (col_in * result descr) * list (option (list desc_obs)))%type.
+
+Definition c06_frame_check (fc : frame_case) : bool :=
+  let '(cols, calls) := fc in
+  let want := frame_desc (map fst cols) in
+  forallb (fun cr => result_eqb (declared (fst cr)) (snd cr)) cols
+  && match calls with [] => false | _ => true end
+  && forallb (fun call => match call with Some l => list_eqb dobs_eqb l want | None => false end) calls.
+
+Definition c06_frame_show (fc : frame_case) :=
+  let '(cols, calls) := fc in (map (fun cr => declared (fst cr)) cols, frame_desc (map fst cols)).
